@@ -38,7 +38,7 @@ ASSUMPTIONS = [
 BUDGET_S = {"quick": 170.0, "thorough": 3000.0}
 
 DX = 0.0625
-SHAPES = {2: [(24, 28), (26, 24)], 3: [(20, 22, 21)]}
+SHAPES = {2: [(24, 28), (26, 24)], 3: [(20, 22, 21), (22, 20, 21)]}
 
 
 def _variants(tier):
